@@ -59,7 +59,7 @@ def stLD (w : World) (cfg : Cfg) : Nat → Ty → Obj → Res
   | _, .bytes, x => match x.toBytes? with | some i => .ok (.bytes i) | Option.none => .error .leaf
   | _, .bool, x => .ok (.bool x.truthy)
   | _, .enum e, x => match enumOf w e x with | some v => .ok v | Option.none => .error .leaf
-  | _, .lit vs, x => if Obj.memPy x vs then .ok x else .error .leaf
+  | _, .lit vs, x => match litStruct w vs x with | some v => .ok v | Option.none => .error .leaf
   | n, .coll k t, o =>
       match leafItems o with
       | Option.none => .error .leaf
@@ -164,7 +164,7 @@ def stD (w : World) (cfg : Cfg) : Ty → Obj → Res
   | .bytes, x => match x.toBytes? with | some i => .ok (.bytes i) | Option.none => .error .leaf
   | .bool, x => .ok (.bool x.truthy)
   | .enum e, x => match enumOf w e x with | some v => .ok v | Option.none => .error .leaf
-  | .lit vs, x => if Obj.memPy x vs then .ok x else .error .leaf
+  | .lit vs, x => match litStruct w vs x with | some v => .ok v | Option.none => .error .leaf
   | .coll k t, o =>
       match h : iterItems o with
       | Option.none => stLD w cfg (leafFuel w) (.coll k t) o
